@@ -8,7 +8,7 @@ import "github.com/tdewolff/parse/v2"
 // solver schedule bits observe exactly what they observe when run alone.
 func VerifInterleave() {
 	n1 := vRange("n1", 0, vParam("N", 2))
-	n2 := vRange("n2", 0, vParam("N", 2))
+	n2 := vRange("n2", 0, vParam("N2", vParam("N", 2)))
 	b1, b2 := vBytes("b1", n1), vBytes("b2", n2)
 	l1 := NewLexer(parse.NewInputBytes(append(make([]byte, 0, n1+1), b1...)))
 	l2 := NewLexer(parse.NewInputBytes(append(make([]byte, 0, n2+1), b2...)))
